@@ -95,6 +95,19 @@ def check(run):
             if len(b) < 400:
                 vm_cand[len(cases) - 1] = (s["name"], list(b), v)
             sizes[len(b) // 64] = sizes.get(len(b) // 64, 0) + 1
+        # long repeated fields: 255 / 256 / 257 / 300 / 1000 elements (a count no length field carries)
+        for n in (255, 256, 257, 300, 1000):
+            for _ in range(3):
+                r = layouts.gen_long_vec_value(rng, s, n)
+                if r is None:
+                    break
+                v, b = r
+                if len(b) > 65535:
+                    continue
+                cases.append("dec\t%s\t%s" % (s["name"], layouts.hexs(b)))
+                expect.append("Ok %s rem=- re=%s" % (layouts.show(v), layouts.hexs(b)))
+                sizes[len(b) // 64] = sizes.get(len(b) // 64, 0) + 1
+                break
         if s["control"]:
             for target in (253, 254, 255, 256, 257) + ((65534, 65535) if th else ()):
                 r = hit_body_length(rng, s, target) if target < 1500 else None
